@@ -148,10 +148,12 @@ Definition forwards (s ety:nat) : bool :=
   | None => false
   | Some co =>
       if c_fct cf
-      then existsb (fun t => match t with
-                             | TrEv e => Nat.eqb e ety && negb (Nat.eqb ety EV_NONE)
-                             | TrNone => Nat.eqb ety EV_NONE
-                             | TrAny => false end) (co_trigs co)
+      then (* call_submachine is only installed by the default_init_cell for ordinary events: the variant for
+              completion events has no composite case, so `none` is never forwarded under favor_compile_time *)
+           negb (Nat.eqb ety EV_NONE) &&
+           existsb (fun t => match t with
+                             | TrEv e => Nat.eqb e ety
+                             | _ => false end) (co_trigs co)
       else existsb (fun t => trig_matches parents true t ety) (co_trigs co)
   end.
 
